@@ -28,10 +28,10 @@ def families(prop: str, tier: str, seed: int) -> Dict[str, List[gen.Spec]]:
                        + gen.family_H(seed + 1, 3 if q else 120)
                        + gen.family_D(seed + 2, 3 if q else 120)
                        + gen.family_F(seed + 4, 8 if q else 150)
-                       + gen.family_S(seed + 5, 10 if q else 150))
+                       + gen.family_S(seed + 5, 20 if q else 150))
         fam["walk"] = gen.family_T_random(seed + 3, 8 if q else 150, min_states=8, max_states=14, density=0.35)
     elif prop == "C10":
-        fam["edge"] = (gen.family_D(seed, 8 if q else 200)
+        fam["edge"] = (gen.family_D(seed, 14 if q else 200)
                        + gen.family_R(seed + 1, 30 if q else 400)
                        + gen.family_T_random(seed + 2, 8 if q else 100, min_states=3, max_states=5))
         fam["walk"] = gen.family_D(seed + 3, 6 if q else 60) + gen.family_R(seed + 4, 6 if q else 60)
@@ -44,6 +44,36 @@ def families(prop: str, tier: str, seed: int) -> Dict[str, List[gen.Spec]]:
                        + gen.family_T_random(seed + 1, 10 if q else 100, min_states=3, max_states=5))
         fam["walk"] = gen.family_S(seed + 3, 12 if q else 120, big=True)
     return fam
+
+
+QUICK_BUDGET = {"C01": 9000, "C02": 6000, "C03": 9000, "C10": 9000, "C11": 9000}
+
+
+def _size(sp: gen.Spec) -> int:
+    """Rough cost of exhaustively exploring a machine: states x declared events."""
+    def count(node):
+        n = 1
+        ev = len(node.get("on") or {})
+        for c in (node.get("states") or {}).values():
+            a, b2 = count(c)
+            n += a
+            ev += b2
+        return n, ev
+    n, ev = count(sp.config)
+    return n * max(ev, 1)
+
+
+def trim(specs: List[gen.Spec], budget: int) -> List[gen.Spec]:
+    """Quick tier: keeps machines (smallest first within the generated order) until the summed
+    size estimate reaches the budget, so the quick check stays within about a minute."""
+    out, tot = [], 0
+    for sp in specs:
+        c = _size(sp)
+        if tot + c > budget and out:
+            continue
+        out.append(sp)
+        tot += c
+    return out
 
 
 def engines_for(prop: str) -> List[str]:
@@ -66,12 +96,27 @@ def run(prop: str, tier: str, seed: int) -> int:
     q = tier == "quick"
     units: List[dict] = []
     gvals = ("T", "F", "R") if prop == "C02" else ("T", "F")
-    n_shards = 4 if q else 12
+    # edge units: big machines alone (largest first, so the pool balances), small ones grouped
+    ordered = sorted(fam["edge"], key=_size, reverse=True)
+    groups: List[List[gen.Spec]] = []
+    small: List[gen.Spec] = []
+    for sp in ordered:
+        if _size(sp) >= 400:
+            groups.append([sp])
+        else:
+            small.append(sp)
+            if len(small) == 4:
+                groups.append(small)
+                small = []
+    if small:
+        groups.append(small)
+    for g in groups:
+        for eng in engines_for(prop):
+            units.append({"specs": g, "engine": eng, "props": [prop], "seed": seed, "gvals": gvals,
+                          "with_can": prop == "C02" and eng != "pure", "mc": True,
+                          "tlc_workers": 3 if _size(g[0]) >= 400 else 2, "walks": (0, 0),
+                          "max_states": 150 if q else 10 ** 8})
     for eng in engines_for(prop):
-        for sh in shard(fam["edge"], n_shards):
-            units.append({"specs": sh, "engine": eng, "props": [prop], "seed": seed, "gvals": gvals,
-                          "with_can": prop == "C02" and eng != "pure", "mc": True, "tlc_workers": 2,
-                          "walks": (0, 0)})
         for i, sh in enumerate(shard(fam["walk"], 2 if q else 6)):
             units.append({"specs": sh, "engine": eng, "props": [prop], "seed": seed + 17 * i, "gvals": gvals,
                           "with_can": prop == "C02" and eng != "pure", "mc": False, "tlc_workers": 2,
@@ -122,6 +167,7 @@ def replay(prop: str, path: str) -> int:
     with open(path) as f:
         rec = json.load(f)
     spec = gen.Spec(rec["config"], rec.get("family", "replay"), rec.get("label", "replay"))
+    spec.missing = rec.get("missing") or []
     b = pipeline.Built(spec)
     eng = rec["engine"]
     res = replay.RUNNERS[eng](b, rec["steps"]) if False else None
